@@ -229,17 +229,34 @@ Fixpoint col_back_post (rs : rsettings) (l : list ftoken) : N :=
 Definition col_for_token_end_post_fmt (rs : rsettings) (toks : list ftoken) (idx1 : nat) : N :=
   col_back_post rs (rev (firstn idx1 toks)).
 
-(* offset_for_token: for idx >= len the loop never breaks and every content is added *)
-Fixpoint offset_for_token (rs : rsettings) (toks : list ftoken) (idx : nat) : N :=
+(* lacks_line_break (commit 65fa795): a line break has to be added in front of this token when
+   it follows a single-line comment.  Shared by reconstruct and offset_for_token in the Rust;
+   Model/Reconstruct.emit_ws inlines the same condition (CursorProofs.emit_ws_split). *)
+Definition lacks_line_break (p : ftoken) : bool :=
+  let (tok, f) := p in
+  if is_eof (t_ty tok) then false
+  else if f_ignored f then negb (has_break (t_ws tok))
+  else f_nl f =? 0.
+
+(* the bytes `if must_break && lacks_line_break(token) { pos += nl_len }` accounts for *)
+Definition net_len (rs : rsettings) (mb : bool) (p : ftoken) : N :=
+  if mb && lacks_line_break p then nl_len rs else 0.
+
+(* offset_for_token with its must_break state; for idx >= len the loop never breaks and every
+   content is added *)
+Fixpoint offset_from (rs : rsettings) (mb : bool) (toks : list ftoken) (idx : nat) : N :=
   match toks with
   | [] => 0
   | p :: r =>
-      ws_len rs p +
+      net_len rs mb p + ws_len rs p +
       match idx with
       | O => 0
-      | S j => blen (t_content (fst p)) + offset_for_token rs r j
+      | S j => blen (t_content (fst p)) + offset_from rs (is_sl_comment (t_ty (fst p))) r j
       end
   end.
+
+Definition offset_for_token (rs : rsettings) (toks : list ftoken) (idx : nat) : N :=
+  offset_from rs false toks idx.
 
 (* content.rsplit('\n').take(nla).map(|l| l.len() + 1).sum() + reverse_col *)
 Definition offset_from_end (content : bytes) (rc nla : N) : N :=
